@@ -691,12 +691,20 @@ def run(tier, replay=None):
         quick = tier == "quick"
         rounds = [0] if quick else [0, 1]
         shapes = {}
+        def tlc_job(dim, rd):
+            consts = {"Tier": tier, "DIM": dim, "SEED": (common.SEED * 7 + rd) % 30000,
+                      "SMOD": (12 if dim == 2 else 18) if quick else 3, "REP": 1}
+            return run_tlc_sharded("MC_Hessian", dict(constants=consts, invariants=INVS + ["Emit"]),
+                                   nshards=4 if quick else 12, timeout=3000, coverage=(not quick and rd == 0 and dim == 2))
+        jobs = [(dim, rd) for dim in (2, 3) for rd in rounds]
+        if quick:       # the two dimensions are independent models: their TLC runs go side by side (2 x 4 shards)
+            import concurrent.futures as cf
+            with cf.ThreadPoolExecutor(max_workers=2) as ex:
+                futs = {j: ex.submit(tlc_job, *j) for j in jobs}
+                tlc_results = {j: f.result() for j, f in futs.items()}
         for dim in (2, 3):
             for rd in rounds:
-                consts = {"Tier": tier, "DIM": dim, "SEED": (common.SEED * 7 + rd) % 30000,
-                          "SMOD": (12 if dim == 2 else 18) if quick else 3, "REP": 1}
-                r = run_tlc_sharded("MC_Hessian", dict(constants=consts, invariants=INVS + ["Emit"]),
-                                    nshards=4 if quick else 12, timeout=3000, coverage=(not quick and rd == 0 and dim == 2))
+                r = tlc_results[(dim, rd)] if quick else tlc_job(dim, rd)
                 require_model_ok(r, f"MC_Hessian dim={dim}")
                 chk.add_tlc(r, f"MC_Hessian dim={dim} round={rd}")
                 seen = set()
